@@ -395,6 +395,11 @@ class _StickySink:
         """Register a session via the callback; stash the minted token for the response."""
         token = self._open_callback(state, ttl)
         self.mint_token = token
+        # A session opened after ``close_session()`` in the same request
+        # supersedes the close: the response must carry the new token only,
+        # otherwise the client applies ``VGI-Session-Close`` after capturing
+        # the token and orphans the session that was just opened.
+        self.closed = False
         # _open_callback set _current_session_context — capture the new id
         # from there. We could equally have _open_callback return it, but
         # the contextvar is the single source of truth right after open.
@@ -407,6 +412,10 @@ class _StickySink:
         """Close the bound session via the callback; signal the response middleware."""
         self._close_callback()
         self.closed = True
+        # A token minted earlier in this request belongs to the session that
+        # was just closed (open refuses while a session is bound) — don't
+        # hand the client a token for a session that no longer exists.
+        self.mint_token = None
 
 
 # ---------------------------------------------------------------------------
